@@ -66,6 +66,10 @@ class SimDevice:
             return bytes(self.rng.randrange(1, 250) for _ in range(self.rng.randint(0, 12))) + b"\xff"
         if verb == "LOGIN":
             return b"ready\n"
+        if self.mode == "junkclose":       # says something no script expects and hangs up, once (bytes left unconsumed in the daemon's buffer)
+            self.log.append((conn, verb, self._targets(verb, arg), "iacclose"))
+            self.want_close.add(conn); self.mode = "healthy"
+            return self.rng.choice([b"goodbye\n", b"> ", b"connection closed by foreign host\r\n", b"x"])
         if self.mode == "iacclose":        # drops the connection in the middle of a telnet sequence, once; behaves from the next connection on
             self.log.append((conn, verb, self._targets(verb, arg), "iacclose"))
             self.want_close.add(conn); self.mode = "healthy"
@@ -98,7 +102,7 @@ class SimDevice:
             sent[p] = txt
             lines.append("%s %s\n" % (p, txt))
         self.answered.append((conn, verb, sent))
-        data = "".join(lines) + "done\n"
+        data = "".join(getattr(self, "prefix_lines", [])) + "".join(lines) + "done\n"      # (prefix_lines: reports about outlets nobody asked about)
         if self.mode == "partial":
             data = data[:max(1, len(data) // 2)]
         return data.encode("latin-1")
@@ -297,6 +301,10 @@ def drive(sess, script, max_rounds=600):
                 evs += step[1]
             elif step[0] == "devmode":
                 sess.devs[step[1]].mode = step[2]
+            elif step[0] == "devstate":           # ("devstate", devname, "ON"|"OFF"): what every outlet of the device reports from now on
+                for pl in sess.devs[step[1]].state: sess.devs[step[1]].state[pl] = step[2]
+            elif step[0] == "devprefix":          # ("devprefix", devname, ["zz9 ON\n", ...]): every answer starts with these lines
+                sess.devs[step[1]].prefix_lines = list(step[2])
             elif step[0] == "verdict":
                 sess.devs[step[1]].verdict[step[2]] = step[3]
             elif step[0] == "flip":
